@@ -74,6 +74,7 @@ pub struct Spec {
     pub tick_work: u64,
     /// yield once inside aux handlers (always-ready streams need it)
     pub aux_yield: bool,
+    pub item_stop_at: Option<u32>,
 }
 
 /// cloneable script steps for started/stopped (no handles inside)
@@ -170,11 +171,13 @@ pub struct Probe<const KK: usize> {
     pub bursts: HashMap<u16, (u32, u32)>,
     /// which started() of this tag this incarnation is (0-based)
     pub inc_no: u32,
+    /// stream items this value has been handed so far
+    pub items_seen: u32,
 }
 
 impl<const KK: usize> Probe<KK> {
     pub fn new(spec: Arc<Spec>) -> Self {
-        Probe { obj: log::uid(), tag: spec.tag, spec, seq: 0, fold: 0, handled: Vec::new(), actor: u32::MAX, bursts: HashMap::new(), inc_no: 0 }
+        Probe { obj: log::uid(), tag: spec.tag, spec, seq: 0, fold: 0, handled: Vec::new(), actor: u32::MAX, bursts: HashMap::new(), inc_no: 0, items_seen: 0 }
     }
     fn apply(&mut self, msg: Uid) {
         self.seq += 1;
@@ -635,7 +638,15 @@ impl<const KK: usize> Handler<()> for Probe<KK> {
 }
 
 impl<const KK: usize> StreamHandler<Item> for Probe<KK> {
-    async fn handle(&mut self, _ctx: &mut Context<Self>, msg: Item) {
+    async fn handle(&mut self, ctx: &mut Context<Self>, msg: Item) {
+        self.items_seen += 1;
+        if self.spec.item_stop_at == Some(self.items_seen) {
+            // an actor that decides on a stream item that it is done (same markers as the `CtxStop` script step)
+            let actor = rt::now_and_task().1;
+            log::log(K::Effect { msg: msg.uid, actor, step: 0, what: "ctx_stop.begin", arg: 0, ok: true });
+            let ok = ctx.stop().is_ok();
+            log::log(K::Effect { msg: msg.uid, actor, step: 0, what: "ctx_stop", arg: 0, ok });
+        }
         self.aux(Mk::Item, msg.uid).await
     }
     async fn finished(&mut self, _ctx: &mut Context<Self>) {
